@@ -152,6 +152,30 @@ def execute(fam, c):
             return None
         est = coh.build(c, V)
         out["fit_transform"] = est.fit_transform(coh.data_of(c)).toarray()
+        if c["epsilon"] > 0:
+            # thresholding is discontinuous: when some value sits within 1e-3 (relative) of epsilon at any step, float32
+            # summation order (threads, modes) may legitimately flip a cell; such cases are not compared across modes
+            from vv.ref import cooc as R
+            ref = coh.reference(dict(c, n_iter=0, epsilon=0.0), est)
+            amb = True
+            if ref.M is not None:
+                M0 = ref.M
+                eps = c["epsilon"]
+                def near(M):
+                    cs = M.sum(0); cs[cs == 0] = 1.0
+                    Mn = M / cs
+                    return bool(np.any((np.abs(Mn - eps) < 1e-3 * eps) & (Mn > 0)))
+                if c["est"] == "multi":
+                    E, a1 = R.em(None, ref.n_rows, ref.n, ref.wins, None, ref.P, M0, c["n_iter"], eps * (1 - 1e-3), multi=ref.multi)
+                    E2, a2 = R.em(None, ref.n_rows, ref.n, ref.wins, None, ref.P, M0, c["n_iter"], eps * (1 + 1e-3), multi=ref.multi)
+                else:
+                    kw = dict(rows_of=ref.rows_of, times=ref.times, ngram=ref.ngram)
+                    E, a1 = R.em(ref.seqs, ref.n_rows, ref.n, ref.wins, ref.radii, ref.P, M0, c["n_iter"], eps * (1 - 1e-3), **kw)
+                    E2, a2 = R.em(ref.seqs, ref.n_rows, ref.n, ref.wins, ref.radii, ref.P, M0, c["n_iter"], eps * (1 + 1e-3), **kw)
+                # unambiguous iff the support is the same for epsilon slightly smaller and slightly larger
+                amb = bool(a1 or a2 or not np.array_equal(E > 0, E2 > 0))
+            if amb:
+                out["__ambiguous__"] = np.array([1.0])
         if c.get("transform_docs"):
             if c["est"] == "timed":
                 data = [[(t, float(i)) for i, t in enumerate(d)] for d in c["transform_docs"]]
@@ -406,6 +430,9 @@ def aggregate(results, counters):
                     viols.append({"t": "viol", "part": part, "mode": mode.split("#")[0], "key": "C10/%s/raises-only-in-%s/%s" % (fam, only, b.get("exc") or a.get("exc")),
                                   "what": "case %s: JIT -> %s, %s -> %s" % (cid, a.get("exc") or "returns", mode, b.get("exc") or "returns"),
                                   "case": {"cid": cid, "family": fam, "jit": a if "exc" in a else "returned", mode: b if "exc" in b else "returned"}, "detail": None})
+                continue
+            if "__ambiguous__" in a["ok"] or "__ambiguous__" in b["ok"]:
+                counters["skip:threshold-ambiguous-em-case-not-compared"] = counters.get("skip:threshold-ambiguous-em-case-not-compared", 0) + 1
                 continue
             d = _cmp(a["ok"], b["ok"])
             if d:
